@@ -636,6 +636,11 @@ class Sim:
                     t = self._read_ref(a, path)
                     if isinstance(t, Bytes):
                         return len(t.b)
+                    a = t
+                if isinstance(a, Adt) and a.adt == "sim::Vec":
+                    return len(a.fields[0].fields)
+                if isinstance(a, Tup):
+                    return len(a.fields)
                 return UNK
             return UNK
         if k == "cast":
@@ -1315,6 +1320,38 @@ class Sim:
             return any(n in names for n in ns)
 
         rs = c.get("resolved") or ""
+        # a vector with known elements (`sim::Vec`, built by a rule): length, indexing, checked access, iteration
+        is_vec = bool(d) and isinstance(d[0], Adt) and d[0].adt == "sim::Vec"
+        if is_vec or (d and isinstance(d[0], Tup) and "<impl [T]>::" in p):
+            tup = d[0].fields[0] if is_vec else d[0]
+            items = tup.fields
+            last = p.rsplit("::", 1)[-1].split("::<")[0]
+            if last == "len" and len(d) == 1:
+                return ("value", len(items))
+            if last == "is_empty" and len(d) == 1:
+                return ("value", int(not items))
+            if is_vec and (has("std::ops::Deref::deref", "std::ops::DerefMut::deref_mut", "std::convert::AsRef::as_ref")
+                           or last in ("as_slice", "as_mut_slice")):
+                return ("value", Ref(d[0].fields, 0, ()))      # the elements, as a slice
+            if has("std::ops::Index::index", "std::ops::IndexMut::index_mut") and len(d) == 2 and isinstance(d[1], int):
+                if 0 <= d[1] < len(items):
+                    return ("value", Ref(items, d[1], ()))
+                return ("panic", "index out of bounds")
+            if last in ("get", "get_mut") and len(d) == 2 and isinstance(d[1], int):
+                if 0 <= d[1] < len(items):
+                    return ("value", Adt("std::option::Option", 1, [Ref(items, d[1], ())]))
+                return ("value", Adt("std::option::Option", 0, []))
+            if last in ("first", "last") and len(d) == 1:
+                if items:
+                    return ("value", Adt("std::option::Option", 1, [Ref(items, 0 if last == "first" else len(items) - 1, ())]))
+                return ("value", Adt("std::option::Option", 0, []))
+            if last == "iter" and len(d) == 1 or has("std::iter::IntoIterator::into_iter") and isinstance(args[0], Ref):
+                return ("value", Adt("sim::SliceIter", 0, [tup, 0]))
+            if has("std::iter::IntoIterator::into_iter"):
+                return ("value", Adt("sim::SliceIter", 0, [tup, 0, "by-value"]))
+            if is_vec and last == "push" and len(d) == 2:
+                items.append(args[1])
+                return ("value", Tup([]))
         # iteration over a known byte slice / array: `for x in bytes`, `for &x in &[a, b, c]`
         if has("std::iter::IntoIterator::into_iter") and d and isinstance(d[0], (Bytes, Tup)) and \
                 ("IntoIterator for &'a [T]>" in rs or "IntoIterator for &'a [T; N]>" in rs):
